@@ -32,7 +32,7 @@ from graphql.type import (
 )
 from graphql.utilities import type_from_ast
 
-from .world import serialize_leaf
+from .world import DEFAULT_RESOLVED, serialize_leaf
 
 UNSET = object()
 BAD = frozenset(("bad",))
@@ -348,6 +348,12 @@ class Model:
     def exec_field(self, obj_type, obj, path, fdef, nodes):
         t = fdef.type
         self.root_of[path] = self._root_index
+        if nodes[0].name.value in DEFAULT_RESOLVED:
+            # no resolver of ours: the value is whatever the source mapping holds under the
+            # field name (absent = null), no arguments, nothing to invoke
+            self.no_invoke.add(path)
+            _kind, value = self.data_fn.default_entry(t, obj["__oid"], nodes[0].name.value)
+            return self.complete_position(t, value, path, nodes)
         fp = self.planner.field(path, t)
         try:
             args = coerce_args(fdef.args, nodes[0], self.variables)
